@@ -45,10 +45,44 @@ func runC20(c *core.Ctx) {
 	// previously selected pair are still in flight when a renomination moves the selection
 	ka := []time.Duration{time.Second, ci}[t.Choose(2, "keepalive")]
 	c.Knob("keepalive", ka.String())
+	// both agents ICE lite (legal when both peers are lite): the controlling lite agent runs the ordinary
+	// checks and nominations, the controlled one only answers; host candidates only, two addresses on A
+	bothLite := t.Bias(1, 6, "both-lite")
+	c.Knob("bothLite", bothLite)
+	if bothLite {
+		withOption = true
+		holdBack = 0
+	}
 	c.Knob("withOption", withOption)
 	c.Knob("holdBack", holdBack)
 	c.Knob("faulty", faulty)
 	c.Knob("nRenom", nRenom)
+	// nomination values: the default generator (1, 2, 3, ...) or an application's own increasing values anywhere
+	// below 2^24 - far apart, and around 2^23 where a wrapped ("serial number") comparison would differ from
+	// the plain one
+	var genVals []uint32
+	switch t.Choose(3, "nomvalues") {
+	case 1:
+		genVals = []uint32{5, 0x900000, 0xFFFFF0, 0xFFFFFF, 0xFFFFFF}
+	case 2:
+		genVals = []uint32{0x7FFFFF, 0x800000, 0x800001, 0xFFFFFE, 0xFFFFFF}
+	}
+	c.Knob("nominationValues", fmt.Sprint(genVals))
+	genIdx := 0
+	gen := ice.DefaultNominationValueGenerator()
+	if genVals != nil {
+		gen = func() uint32 {
+			v := genVals[min(genIdx, len(genVals)-1)]
+			genIdx++
+			return v
+		}
+	}
+	valueOf := func(k int) uint32 { // the value of the k-th renomination (0-based)
+		if genVals == nil {
+			return uint32(k + 1)
+		}
+		return genVals[min(k, len(genVals)-1)]
+	}
 	opts := func(renom bool) []ice.AgentOption {
 		o := []ice.AgentOption{
 			ice.WithCheckInterval(ci), ice.WithKeepaliveInterval(ka),
@@ -58,12 +92,19 @@ func runC20(c *core.Ctx) {
 			ice.WithCandidateTypes([]ice.CandidateType{ice.CandidateTypeHost, ice.CandidateTypeServerReflexive}),
 		}
 		if renom {
-			o = append(o, ice.WithRenomination(ice.DefaultNominationValueGenerator()))
+			o = append(o, ice.WithRenomination(gen))
+		}
+		if bothLite {
+			o = append(o, ice.WithICELite(true), ice.WithCandidateTypes([]ice.CandidateType{ice.CandidateTypeHost}))
 		}
 		return o
 	}
-	d, err := rig.NewDuo(c, rig.DuoCfg{AddrsA: []string{"10.0.1.10"}, AddrsB: []string{"10.0.2.10"},
-		AliasA: "198.51.100.1", AliasB: "198.51.100.2", OptsA: opts(withOption), OptsB: opts(true)})
+	duoCfg := rig.DuoCfg{AddrsA: []string{"10.0.1.10"}, AddrsB: []string{"10.0.2.10"},
+		AliasA: "198.51.100.1", AliasB: "198.51.100.2", OptsA: opts(withOption), OptsB: opts(true)}
+	if bothLite {
+		duoCfg = rig.DuoCfg{AddrsA: []string{"10.0.1.10", "10.0.1.11"}, AddrsB: []string{"10.0.2.10", "10.0.2.11"}, OptsA: opts(true), OptsB: opts(true)}
+	}
+	d, err := rig.NewDuo(c, duoCfg)
 	if err != nil {
 		c.Failf("harness/setup", "%v", err)
 		return
@@ -292,7 +333,7 @@ func runC20(c *core.Ctx) {
 			return
 		}
 		d.S.Settle()
-		want := uint32(len(noms) + 1)
+		want := valueOf(len(noms))
 		found := false
 		for _, q := range d.W.InFlight() {
 			if before[q.ID] {
